@@ -32,7 +32,7 @@ plan('C13',
                                   '(the creator busy-waits on a flag without a yield point)',
                                   'a waiter that is still blocked 15 s after its predicate became true and was signalled under the mutex, with every other thread gone, is judged to have lost the signal',
                                   'visibility after join is judged by TSan happens-before analysis (plain writes in the task, plain reads after join) as well as by value'])
-T('C13', 'exhaustive parallel_for range/thread-count sweep with per-index counters + systematic delay injection at the thread hand-over hooks + conservation/exactly-once monitors for Semaphore and Condition, under TSan, ASan and -O2',
+T('C13', 'exhaustive parallel_for range/thread-count sweep with per-index counters + systematic delay injection at the thread hand-over hooks + conservation/exactly-once monitors for Semaphore and Condition, , several concurrent parallel_for callers, under TSan, ASan and -O2',
   'Every (i0,i1,n) triple of the property\'s range is executed with per-index counters and guard zones; every thread scenario is run under all 127 combinations of forced delays at the seven hand-over points, '
   'so that "worker finishes before the creator resumes" and the opposite order both happen; TSan checks that effects are ordered before join returns, ASan watches the hand-over context.',
   'Trusts gcc TSan/ASan (with annotations that tell TSan the ready-flag spin is a synchronisation), std::atomic counters in the harness.')
